@@ -316,4 +316,9 @@ func main() {
 	writeIfChanged(filepath.Join(outDir, "Guards.lean"), guards)
 	// C09 (extract/lifecycle.go): never exits; a problem is recorded inside the generated file
 	writeIfChanged(filepath.Join(outDir, "Lifecycle.lean"), genLifecycle(repoRoot))
+	writeIfChanged(filepath.Join(outDir, "ConfigLoad.lean"), genConfigLoad(repoRoot)) // C14 (extract/configload.go): never exits
+	// C15 / C17 (extract/compress.go, extract/gates.go, walker extract/mwskel.go): never exit either
+	writeIfChanged(filepath.Join(outDir, "Compress.lean"), genCompress(repoRoot))
+	writeIfChanged(filepath.Join(outDir, "Gates.lean"), genGates(repoRoot))
+	writeIfChanged(filepath.Join(outDir, "ObsApp.lean"), genObsApp(repoRoot)) // C08 app layer (extract/obsapp.go): never exits
 }
